@@ -1,4 +1,5 @@
-package main
+// Package hk: shared helpers of the per-property harness programs.
+package hk
 
 import (
 	"encoding/json"
@@ -26,8 +27,8 @@ func (r *Rng) Intn(n int) int {
 	}
 	return int(r.Next() % uint64(n))
 }
-func (r *Rng) Bool() bool  { return r.Next()&1 == 1 }
-func (r *Rng) Byte() byte  { return byte(r.Next()) }
+func (r *Rng) Bool() bool { return r.Next()&1 == 1 }
+func (r *Rng) Byte() byte { return byte(r.Next()) }
 func (r *Rng) Bytes(n int) []byte {
 	b := make([]byte, n)
 	for i := range b {
@@ -172,7 +173,7 @@ func (r *Run) Finish() {
 
 // ---- Coq term printers ----
 
-func coqBytes(b []byte) string {
+func CoqBytes(b []byte) string {
 	if len(b) == 0 {
 		return "[]"
 	}
@@ -187,15 +188,15 @@ func coqBytes(b []byte) string {
 	sb.WriteByte(']')
 	return sb.String()
 }
-func coqStr(s string) string { return coqBytes([]byte(s)) }
-func coqBool(b bool) string {
+func CoqStr(s string) string { return CoqBytes([]byte(s)) }
+func CoqBool(b bool) string {
 	if b {
 		return "true"
 	}
 	return "false"
 }
-func coqList(xs []string) string { return "[" + strings.Join(xs, "; ") + "]" }
-func hexs(b []byte) string      { return fmt.Sprintf("%x", b) }
+func CoqList(xs []string) string { return "[" + strings.Join(xs, "; ") + "]" }
+func Hex(b []byte) string        { return fmt.Sprintf("%x", b) }
 
 // Catch runs f and reports whether it panicked.
 func Catch(f func()) (panicked bool, val interface{}) {
@@ -221,4 +222,25 @@ func CatchTimeout(d time.Duration, f func()) (panicked bool, hang bool, val inte
 	case <-time.After(d):
 		return false, true, nil
 	}
+}
+
+// Main parses the command line shared by all harness programs:
+//
+//	<prog> <outdir> <quick|thorough> <seed> [replay-file]
+func Main(prop string, f func(*Run)) {
+	if len(os.Args) < 4 {
+		fmt.Fprintln(os.Stderr, "usage: "+os.Args[0]+" <outdir> <quick|thorough> <seed> [replay-file]")
+		os.Exit(2)
+	}
+	var seed uint64
+	if _, err := fmt.Sscanf(os.Args[3], "%d", &seed); err != nil {
+		fmt.Fprintln(os.Stderr, "bad seed")
+		os.Exit(2)
+	}
+	r := NewRun(prop, os.Args[1], os.Args[2], seed)
+	if len(os.Args) > 4 {
+		r.ReplayFile = os.Args[4]
+	}
+	f(r)
+	r.Finish()
 }
